@@ -546,8 +546,42 @@ func (cx *Ctx) validateBoundsFee(r *Report) bool {
 		return false
 	}
 	v := cx.P.SSA.FuncValue(sel.Obj().(*types.Func))
-	// some failure exit of the validation closure is taken exactly when ¬(Fee < 1)
-	return cx.rejectsWhen(v, false, "LegacyDec.LT(", ".Fee, math.LegacyOneDec())")
+	// every success exit of Validate holds the fact Fee < 1 (directly or through a
+	// validator helper that returned nil)
+	return cx.acceptsOnlyWhen(v, true, "LegacyDec.LT(", ".Fee, math.LegacyOneDec())")
+}
+
+// acceptsOnlyWhen: every success exit of fn is dominated by a fact (possibly
+// implied by a helper call that succeeded) with the given polarity whose text
+// contains all substrings.
+func (cx *Ctx) acceptsOnlyWhen(fn *ssa.Function, holds bool, subs ...string) bool {
+	w := newWalker(cx)
+	fr := &Frame{Fn: fn}
+	exits := successExitBlocks(fn)
+	if len(exits) == 0 {
+		return false
+	}
+	for _, b := range exits {
+		ok := false
+		for _, ft := range w.blockFacts(fr, b, 0) {
+			if ft.Holds != holds {
+				continue
+			}
+			all := true
+			for _, s := range subs {
+				if !strings.Contains(ft.Text, s) {
+					all = false
+				}
+			}
+			if all {
+				ok = true
+			}
+		}
+		if !ok {
+			return false
+		}
+	}
+	return true
 }
 
 // rejectsWhen: walking every chain from fn, some failure exit holds a dominating
